@@ -326,7 +326,10 @@ def eval_stm(case, ctx):
     f0 = O.field(s0, mu)
     fT = O.field(x[-1], mu)
     e_e = float(np.linalg.norm(Phi @ f0 - fT))
-    tol_e = tol_phi * float(np.linalg.norm(f0)) + 64 * EPS * (O.field_scale(x[-1], mu) + O.field_cond(x[-1], mu) + L * O.field_scale(s0, mu))
+    # Phi_ref f0 = f(x_ref(tf)) exactly; the library's end state is eps_x away from x_ref(tf)
+    lip_end = max(float(np.linalg.norm(O.jacobian(x[-1], mu), 2)), float(np.linalg.norm(O.jacobian(wend[:6], mu), 2)))
+    tol_e = (tol_phi * float(np.linalg.norm(f0)) + 2 * lip_end * eps_x
+             + 64 * EPS * (O.field_scale(x[-1], mu) + O.field_cond(x[-1], mu) + L * O.field_scale(s0, mu)))
     if not _within("e:%s" % kind, e_e, tol_e):
         ctx.fail("phi-does-not-transport-field:%s:%s" % (kind, dim), case,
                  "|Phi f(x0) - f(x(tf))| = %.3e > %.3e (%s, %s)" % (e_e, tol_e, tag, info))
@@ -380,7 +383,10 @@ def eval_stm(case, ctx):
     if kind == "fixed":
         try:
             xp = end_prop(s0)
-            tol_t = 100 * EPS * steps * (1.0 + xmax) * L
+            # same Runge-Kutta map on x; the two right-hand sides are different floating-point expressions of the same field
+            # (rounding 64*eps*(field_scale+field_cond) per unit time, as bounded in C01), amplified by at most L
+            fsc = max(O.field_scale(w[:6], mu) + O.field_cond(w[:6], mu) for w in Wg[::10])
+            tol_t = 100 * EPS * steps * (1.0 + xmax) * L + 640 * EPS * fsc * tf * L
             e_t = float(np.linalg.norm(xp - x[-1]))
             if not _within("tie:fixed", e_t, tol_t):
                 ctx.fail("stm-trajectory-differs-from-propagate:fixed:" + dim, case,
@@ -431,16 +437,22 @@ def eval_orbit(case, ctx):
     Wg = ref.sol(tg).T
     r_min = min(min(O.distances(w[:6], mu)) for w in Wg)
     L = max(float(np.linalg.norm(w[6:].reshape(6, 6), 2)) for w in Wg)
-    if r_min < 1e-2 or L > 1e8:
+    if r_min < 1e-4 or L > 1e8:   # (Sun-Earth L1/L2 orbits stay ~1e-2 from the Earth: conditioning enters through 1/r_min, not a cut-off)
         ctx.case(cls="orbit:%s:discard:ill-conditioned" % where)
         return
     wT = ref.sol(T)
     xT = wT[:6]; Mo = wT[6:].reshape(6, 6)
     closure = float(np.linalg.norm(xT - x0))
     nt = closure < 1e-6
-    M = np.array(orbit.monodromy, dtype=float)
-    nu = np.array(orbit.stability_indices, dtype=complex).ravel()
-    ev = np.array(orbit.eigenvalues, dtype=complex).ravel()
+    try:
+        M = np.array(orbit.monodromy, dtype=float)
+        nu = np.array(orbit.stability_indices, dtype=complex).ravel()
+        ev = np.array(orbit.eigenvalues, dtype=complex).ravel()
+    except Exception as e:
+        ctx.case(cls="orbit:%s:stability-raised" % where)
+        ctx.fail("orbit-monodromy-or-stability-raised:" + where, case,
+                 "%s: %s (corrected orbit, T=%.9g, closure=%.3g, x0=%r)" % (type(e).__name__, str(e)[:300], T, closure, x0.tolist()))
+        return
     ctx.case(nontrivial=("orbit", repr(case)) if nt else None,
              cls=["orbit:%s:%s" % (where, "closed" if nt else "closure>=1e-6"), "orbit:sys=" + case["sys"].split(":")[0]],
              sample={"case": case, "period": T, "closure": closure, "norm_M": float(np.linalg.norm(Mo, 2)), "nu": [[v.real, v.imag] for v in nu]})
